@@ -22,9 +22,9 @@ type elEntry struct {
 }
 
 type elModel struct {
-	expiry      time.Duration
-	max, maxLn  int
-	entries     []*elEntry
+	expiry     time.Duration
+	max, maxLn int
+	entries    []*elEntry
 }
 
 func (m *elModel) size() int {
@@ -105,8 +105,8 @@ func (m *elModel) key(now time.Duration) string {
 }
 
 type elConfig struct {
-	Expiry        time.Duration
-	Max, MaxLine  int
+	Expiry       time.Duration
+	Max, MaxLine int
 }
 
 var elLines = []string{"", "a", "aaaaa", "bbbbb", "ccccc", "dddddd", "eeeeeeeeee"}
